@@ -103,8 +103,8 @@ BodyOf(t)   == LET c == IndexOf(t, ":") IN IF c = 0 THEN t ELSE After(t, c)
 SemAlt(t) ==
     IF IsDecimalText(t) THEN SemDelta(DecimalFix(t))
     ELSE LET p == PrefixOf(t)  b == BodyOf(t) IN
-    CASE p = "formula" -> LET r == ParseFormula(b) IN IF r[1] THEN SemComp(r[2]) ELSE Unres
-      [] p = "glycan" -> LET r == GlycanComp(b) IN IF r[1] THEN [SemComp(r[2]) EXCEPT !.sugars = r[3]] ELSE Unres
+    CASE p = "formula" -> LET r == ParseFormula(b) IN IF r[1] /\ b # "" THEN SemComp(r[2]) ELSE Unres      \* "Formula:" spells nothing
+      [] p = "glycan" -> LET r == GlycanComp(b) IN IF r[1] /\ b # "" THEN [SemComp(r[2]) EXCEPT !.sugars = r[3]] ELSE Unres
       [] p = "obs" -> IF IsDecimalText(b) THEN SemDelta(DecimalFix(b)) ELSE Unres
       [] p = "info" -> Unres
       [] p \in {"u", "unimod"} ->
